@@ -7,9 +7,9 @@ for l in open('/verif/properties.jsonl'):
     if p['id'] == pid:
         break
 wt = f"/tmp/seed-{pid}" if rnd == "1" else f"/tmp/seed{rnd}-{pid}"
-VA, VB = {"1": ("A", "B"), "2": ("C", "D"), "3": ("E", "F"), "4": ("G", "H"), "5": ("I", "J"), "6": ("K", "L"), "7": ("M", "N")}[rnd]
+VA, VB = {"1": ("A", "B"), "2": ("C", "D"), "3": ("E", "F"), "4": ("G", "H"), "5": ("I", "J"), "6": ("K", "L"), "7": ("M", "N"), "8": ("O", "P")}[rnd]
 avoid = ""
-if rnd in ("3", "4", "5", "6", "7"):
+if rnd in ("3", "4", "5", "6", "7", "8"):
     # round 3: name what other developers already tried for this property, so that effort goes elsewhere
     # (descriptions of the earlier changes only – nothing about how anything is checked)
     short = json.load(open('/verif/seeded/SHORT.json'))
